@@ -87,6 +87,8 @@ type EvoScenario struct {
 	executor genetics.PopulationEpochExecutor
 	// hugePopulation (C17): thousands of organisms
 	hugePopulation bool
+	// manySpeciesTies (C17): large genomes, many species, purely structural distances
+	manySpeciesTies bool
 	modular        bool // a modular start genome with crossovers (C17 only)
 	// switchThreshold: the copy of the options that takes over at SwitchOptsAt has another compatibility threshold as well (C08)
 	switchThreshold bool
